@@ -20,6 +20,8 @@ pub struct CheckArgs {
     pub audit_every: u64,
     pub write_evidence: bool,
     pub run_timeout_s: u64,
+    /// stop exploring at the first violation that is not a listed known finding (tools that only need the verdict)
+    pub first_only: bool,
 }
 
 enum Msg {
@@ -249,6 +251,7 @@ pub fn check_main(a: CheckArgs) -> i32 {
     let mut world: Option<Value> = None;
     let mut viols: Vec<Viol> = vec![];
     let mut dead: Vec<(usize, String, u64, String)> = vec![];
+    let mut stopped_early = false;
 
     while eof.iter().any(|e| !*e) {
         match rx.recv_timeout(Duration::from_secs(1)) {
@@ -271,6 +274,19 @@ pub fn check_main(a: CheckArgs) -> i32 {
                         minimised: x.get("minimised").cloned().unwrap_or(Value::Null),
                     });
                     last_progress[i].2 = Instant::now();
+                    if a.first_only {
+                        let v = viols.last().unwrap();
+                        let is_known = known.iter().any(|k| k.status == "known" && class(&k.clause) == class(&v.clause) && k.module == v.module && v.component.starts_with(&k.component_prefix));
+                        if !is_known {
+                            for j in 0..n {
+                                if done[j].is_none() {
+                                    done[j] = Some(json!({"killed": true}));
+                                }
+                                let _ = procs[j].kill();
+                            }
+                            stopped_early = true;
+                        }
+                    }
                 } else if v.get("done").is_some() {
                     done[i] = Some(v["done"].clone());
                 }
@@ -278,7 +294,7 @@ pub fn check_main(a: CheckArgs) -> i32 {
             Ok(Msg::Eof(i)) => {
                 eof[i] = true;
                 let status = procs[i].wait().ok();
-                if done[i].is_none() {
+                if done[i].is_none() && !stopped_early {
                     let (s, r, _) = last_progress[i].clone();
                     let why = match status {
                         Some(st) if st.code().is_none() => format!("child killed by a signal ({st})"),
@@ -553,6 +569,9 @@ pub fn check_main(a: CheckArgs) -> i32 {
     }
     let _ = std::fs::remove_dir_all(&tmp_dir);
 
+    if stopped_early {
+        println!("(stopped at the first violation: --first-only)");
+    }
     println!(
         "runs: {:?}  solo: {} tasks x {} processes  steps: {}  distinct non-trivial interleavings: {}  compared: {}  faulted: {}  wall: {:.1}s",
         runs, tasks_n, solo_tables_n, steps, fp_nontrivial.len(), tasks_compared, tasks_faulted, wall
